@@ -62,5 +62,27 @@ pub fn props() -> Vec<Prop> {
         real: &["may_queue::mpsc::Queue", "may_queue::spsc::Queue (inner_cache)", "may_queue::atomic wrappers"],
         stub: STUB_COMMON,
         assumptions: ASSUME_COMMON,
+    }, Prop {
+        id: "C05",
+        scenarios: &[("c05", 1)],
+        quick_runs: 30000,
+        thorough_runs: 900000,
+        quick_cap_s: 60.0,
+        thorough_cap_s: 900.0,
+        probes: &[],
+        real: &["may::sync::Mutex (mpsc wait queue, SyncBlocker hand-off, poison flag)", "Park / ThreadPark", "cancel", "scheduler + timer thread"],
+        stub: STUB_COMMON,
+        assumptions: ASSUME_COMMON,
+    }, Prop {
+        id: "C10",
+        scenarios: &[("c10s", 2), ("c10f", 1)],
+        quick_runs: 30000,
+        thorough_runs: 900000,
+        quick_cap_s: 60.0,
+        thorough_cap_s: 900.0,
+        probes: &[],
+        real: &["may::sync::Semphore", "may::sync::SyncFlag", "SyncBlocker (unparked/release handshake)", "Park / ThreadPark with timeouts", "cancel", "scheduler + timer thread"],
+        stub: STUB_COMMON,
+        assumptions: ASSUME_COMMON,
     }]
 }
